@@ -31,6 +31,9 @@ thread_local! {
     pub static CLONE_PANIC: Cell<usize> = const { Cell::new(0) };
 }
 
+/// id of the element whose destructor panics (0 = none); per process, one run at a time
+pub static DROP_PANIC_ID: std::sync::atomic::AtomicU32 = std::sync::atomic::AtomicU32::new(0);
+
 /// Probe element with identity.
 #[derive(Debug, PartialEq, Eq)]
 pub struct Tok {
@@ -75,6 +78,13 @@ impl Drop for Tok {
         if ledger_on() {
             let _g = Flag::off();
             emit(json!({"e":"DropElem","t":cur_tid(),"id":self.id,"ok":self.pad==0xA5A5_5A5A}));
+            if self.id != 0
+                && self.id == DROP_PANIC_ID.load(std::sync::atomic::Ordering::Relaxed)
+                && !std::thread::panicking()
+            {
+                DROP_PANIC_ID.store(0, std::sync::atomic::Ordering::Relaxed);
+                panic!("probe: drop panics");
+            }
         }
     }
 }
@@ -150,10 +160,14 @@ impl ProbeCore {
     }
 }
 
-/// Owning probe iterator.
+/// Owning probe iterator.  `revive` > 0 makes it a non-fused source: after its first `None` it yields
+/// `revive` further items (ids following the regular ones) before it is exhausted for good.
 pub struct ProbeIter {
     pub items: VecDeque<Tok>,
     pub core: ProbeCore,
+    pub revive: usize,
+    pub next_id: usize,
+    pub none_seen: bool,
 }
 
 impl Iterator for ProbeIter {
@@ -161,7 +175,16 @@ impl Iterator for ProbeIter {
     fn next(&mut self) -> Option<Tok> {
         self.core.enter();
         self.core.maybe_panic();
-        let x = self.items.pop_front();
+        let mut x = self.items.pop_front();
+        if x.is_none() {
+            if self.none_seen && self.revive > 0 {
+                self.revive -= 1;
+                let _g = Flag::off();
+                x = Some(Tok::new(self.next_id));
+                self.next_id += 1;
+            }
+            self.none_seen = true;
+        }
         self.core.exit(x.as_ref().map(|t| t.id as i64).unwrap_or(-1));
         x
     }
